@@ -35,6 +35,8 @@ getcontext().prec = 60
 PI = Decimal("3.14159265358979323846264338327950288419716939937510582097494")
 JNS = ["j0", "J", "j2", "j4", "j6"]
 QS = [0.0, 0.5, 3.0, 12.0, 30.0]
+import numpy as _np
+QARR = _np.array(QS, dtype=float)   # shared on purpose
 SCRATCH = None      # temporary directory for the generated DABAX files (created and removed per run)
 
 
@@ -66,7 +68,18 @@ def obs_element(el):
             d["Q"] = {}
             for jn in JNS:
                 if not isinstance(d[jn], str):
-                    d["Q"][jn] = [P.observe(lambda: float(getattr(rec, jn + "_Q")(Q))) for Q in QS]
+                    # one float64 array reused for every evaluation (an evaluation must not change its
+                    # argument), cross-checked against a scalar call at one of the points
+                    vec = P.observe(lambda: [float(v) for v in getattr(rec, jn + "_Q")(QARR)])
+                    if isinstance(vec, str) or len(vec) != len(QS):
+                        d["Q"][jn] = [P.observe(lambda: float(getattr(rec, jn + "_Q")(Q))) for Q in QS]
+                    else:
+                        k = (q + len(jn)) % len(QS)
+                        one = P.observe(lambda: float(getattr(rec, jn + "_Q")(QS[k])))
+                        if isinstance(one, str) or one != vec[k]:
+                            vec[k] = one if isinstance(one, str) else float("nan") if one != one else \
+                                (one if abs(one - vec[k]) <= 1e-15 * max(abs(one), 1e-300) else float("inf"))
+                        d["Q"][jn] = vec
             o["mag"][q] = d
     return o
 
